@@ -328,5 +328,6 @@ pub(crate) fn c02_reader_passthru<S: Shape>() {
 }
 
 include!("c13.rs");
+include!("c14.rs");
 
 include!("shapes_gen.rs");
